@@ -256,3 +256,24 @@ claim(
     'finite abstract interpretation on the CFG (product domain), per-path '
     'hook coverage, linear-form guard check, folding of the pass builder',
     'DESIGN.md §4 C02')
+
+claim(
+    'C10', 'other',
+    'Control-flow obligations around the child process and the limit '
+    'bookkeeping, decided statically: every blocking call on the child in '
+    'checker.execute carries a timeout that is the function\'s timeout '
+    'parameter; the TimeoutExpired handler kills the child on every path, '
+    'returns a record and does not wait unboundedly; the record of an '
+    'expired run has exit None (read before any wait) and None streams, and '
+    'streams that may be None are never searched; both spawn paths apply '
+    'limit_resources (RLIMIT_AS from memout MiB, RLIMIT_CPU from '
+    'ceil(timeout)); each default limit is (matching golden run time + 1) * '
+    '1.5, assigned exactly when its own option is None; all four match '
+    'strings are validated against their golden stream with a non-zero exit, '
+    'and do_golden_runs dominates both reductions.',
+    'Partial: nothing the kernel does (signal delivery, RLIMIT accounting, '
+    'grandchildren holding pipes) and no wall-time number is decided. '
+    'Trusted: CPython ast; subprocess semantics of communicate(timeout).',
+    'dataflow of the timeout parameter to every blocking call; handler path '
+    'enumeration; dominance of validation/defaults',
+    'DESIGN.md §4 C10')
